@@ -14,7 +14,9 @@ Record cls := {
   c_mixin : bool;          (* subclass of DataClassDictMixin: compiled by itself at class creation;
                               false: plain dataclass, compiled by the first builder that meets it *)
   c_cfgd : option ns; c_cfg : ns; c_sort : bool; c_flags : flags;
-  c_fields : list (fplan * list nat);
+  c_fields : list (fplan * list nat);   (* inherited fields first; options above are the RESOLVED ones
+                                           (a subclass without Config of its own inherits its parent's) *)
+  c_parent : option nat;                (* the dataclass it derives from *)
 }.
 
 (* pack_dataclass: the builder created for a nested class that has no to_dict yet receives
@@ -53,7 +55,8 @@ Definition flags_eqb (a b: flags) : bool :=
 Inductive node :=
 | NLeaf (raw packed: pv)              (* any non-dataclass value (also None in an Optional[Inner] field) *)
 | NObj (cid: nat) (fs: list node)     (* instance of class cid with its field values in declaration order *)
-| NList (items: list node).           (* value of a List[<dataclass>] field *)
+| NList (items: list node)            (* value of a List[<dataclass>] field *)
+| NDict (items: list (string * node)). (* value of a Dict[str, <dataclass>] field *)
 
 Definition no_flags : flags := {| g_on := false; g_ba := false; g_dl := false; g_cx := false |}.
 
@@ -76,9 +79,18 @@ Section Table.
     | [] => None
     | m :: r => let fl := both outer (flags_c m) in
                 if subflags fl (flags_c cid) then Some fl else pick_impl outer r cid end.
-  (* reference: the flags enabled on both the outer class and the class of the value *)
+  (* the value conforms to the field: its class is a member or derives from one *)
+  Fixpoint conforms_fuel (fuel: nat) (cid: nat) (members: list nat) : bool :=
+    existsb (Nat.eqb cid) members ||
+    match fuel, nth_error ct cid with
+    | S n, Some c => match c.(c_parent) with Some p => conforms_fuel n p members | None => false end
+    | _, _ => false end.
+  Definition conforms (cid: nat) (members: list nat) : bool := conforms_fuel (List.length ct) cid members.
+
+  (* reference: the flags enabled on both the outer class and the CLASS OF THE VALUE (which may be a
+     subclass of the declared member) *)
   Definition pick_spec (outer: flags) (members: list nat) (cid: nat) : option flags :=
-    if existsb (Nat.eqb cid) members then Some (both outer (flags_c cid)) else None.
+    if conforms cid members then Some (both outer (flags_c cid)) else None.
 
   (* flags named in the call of the nested method *)
   Definition pick (spec: bool) (outer: flags) (members: list nat) (cid: nat) : option flags :=
@@ -105,6 +117,17 @@ Section Table.
                              | Some v, Some t => Some (snd v :: t)
                              | _, _ => None end end) items with
         | Some l => Some (POpq (S (List.length items)), PList l)
+        | None => None end
+    | NDict items =>
+        (* {key: value.__mashumaro_to_dict__(<flags>) for key, value in value.items()}: per element, same call *)
+        match (fix go (l: list (string * node)) {struct l} : option (list (string * pv)) :=
+                 match l with
+                 | [] => Some []
+                 | kx :: r => match kx with (k, x) =>
+                                match pack_h spec x members outer avail pd, go r with
+                                | Some v, Some t => Some ((k, snd v) :: t)
+                                | _, _ => None end end end) items with
+        | Some l => Some (POpq (S (List.length items)), PDict l)
         | None => None end
     | NObj cid ch =>
         match nth_error ct cid, pick spec outer members cid with
@@ -145,6 +168,9 @@ Section Table.
     | NList items =>
         (fix go (l: list node) {struct l} : bool :=
            match l with [] => true | x :: r => ok_h x members outer avail pd && go r end) items
+    | NDict items =>
+        (fix go (l: list (string * node)) {struct l} : bool :=
+           match l with [] => true | kx :: r => match kx with (_, x) => ok_h x members outer avail pd && go r end end) items
     | NObj cid ch =>
         match nth_error ct cid, pick true outer members cid, pick false outer members cid with
         | Some c, Some fl, Some fl' =>
